@@ -173,20 +173,28 @@ int vf_fclose(FILE *f) {
 /* ------------------------------------------------- replay: real calls + injected faults */
 void *vf_malloc(size_t n) { if (os_fails(OS_MALLOC)) return NULL; return (malloc)(n); }
 void vf_free(void *p) { (free)(p); }
+static unsigned char *os_native_code;
+unsigned char *os_code_base(void) { return os_native_code; }
 void *vf_mmap(void *addr, size_t len, int prot, int flags, int fd, off_t off) {
   if (os_fails(OS_MMAP)) { errno = ENOMEM; return MAP_FAILED; }
-  if (flags & MAP_ANONYMOUS) os_last_prot = prot;
+  if ((flags & MAP_ANONYMOUS) && (prot & PROT_EXEC)) os_last_prot = prot;
   void *p = (mmap)(addr, len, prot, flags, fd, off);
+  if ((flags & MAP_ANONYMOUS) && (prot & PROT_EXEC) && p != MAP_FAILED) { os_native_code = p; os_anon_len = (unsigned)len; }
   if (!(flags & MAP_ANONYMOUS) && p != MAP_FAILED) { os_map_base = p; os_map_end = (unsigned)len; }
   return p;
 }
 void *vf_mremap(void *old, size_t oldlen, size_t newlen, int flags, ...) {
   if (os_fails(OS_MREMAP)) { errno = ENOMEM; return MAP_FAILED; }
-  if (!os_mremap_moves) return (mremap)(old, oldlen, newlen, flags);
+  if (!os_mremap_moves) {
+    void *r = (mremap)(old, oldlen, newlen, flags);
+    if (r != MAP_FAILED) { os_native_code = r; os_anon_len = (unsigned)newlen; }
+    return r;
+  }
   void *np = (mmap)(NULL, newlen, PROT_READ | PROT_WRITE | PROT_EXEC, MAP_ANONYMOUS | MAP_PRIVATE, -1, 0);
   if (np == MAP_FAILED) return np;
   memcpy(np, old, oldlen);
   (munmap)(old, oldlen);
+  os_native_code = np; os_anon_len = (unsigned)newlen;
   return np;
 }
 int vf_munmap(void *p, size_t len) {
